@@ -90,3 +90,29 @@ Proof.
       * intros p Hp. discriminate.
       * intros pi pp ch Hq. discriminate.
 Qed.
+
+(* non-vacuity: the two-roles situation as a concrete state. One object of 511 bytes is named as first chunk file; under a
+   chunk-file limit of 510 the provisional files are refused although every other limit (and the core-index limit the same
+   object would meet) is generous; under a limit of 511 the same state is read. *)
+Definition ex_L (chunk : Z) : limits :=
+  {| l_hash_len := 100; l_uri_len := 100; l_core_index := 1000000; l_proof := 1000000; l_prov_index := 1000000;
+     l_chunk := chunk; l_factor := 3 |}.
+Definition ex_chunk_raw : raw chunk_file :=
+  {| f_read_ok := true; f_raw_size := 511; f_decomp_ok := true; f_size := 700;
+     f_parsed := Some {| ch_deltas := [ {| de_delta := 1; de_valid := true |} ] |} |}.
+Definition ex_pi : prov_index_file :=
+  {| pi_proof := {| uri_len := 0; target := None |};
+     pi_chunks := [ {| uri_len := 46; target := Some ex_chunk_raw |} ]; pi_updates := [] |}.
+Definition ex_pi_ref : ref prov_index_file :=
+  {| uri_len := 46; target := Some {| f_read_ok := true; f_raw_size := 120; f_decomp_ok := true; f_size := 150; f_parsed := Some ex_pi |} |}.
+
+Example ex_two_roles_hypotheses :
+  read_ref (ex_L 510) (l_prov_index (ex_L 510)) ex_pi_ref = Some ex_pi /\
+  f_raw_size ex_chunk_raw > l_chunk (ex_L 510) /\ f_raw_size ex_chunk_raw <= l_core_index (ex_L 510).
+Proof. split; [vm_compute; reflexivity|]. cbn. lia. Qed.
+
+Example ex_two_roles_refused : get_prov_files (ex_L 510) ex_pi_ref = None.
+Proof. vm_compute. reflexivity. Qed.
+
+Example ex_two_roles_read_at_the_limit : exists pp ch, get_prov_files (ex_L 511) ex_pi_ref = Some (ex_pi, pp, ch).
+Proof. eexists. eexists. vm_compute. reflexivity. Qed.
